@@ -7,7 +7,7 @@ one() {
   d=${1%/}; tmp=$(mktemp -d /tmp/mgbn.XXXXXX)
   rsync -a --exclude .git /repo/ "$tmp/"
   if ! (cd "$tmp" && patch -s -p1 --no-backup-if-mismatch < "/verif/$d/patch.diff" >/dev/null 2>&1); then echo "$(basename $d): patch no longer applies"; rm -rf "$tmp"; return; fi
-  out=$(/verif/bin/mgcheck all quick -repo "$tmp" -quiet 2>&1); rm -rf "$tmp"
+  out=$(${MGBIN:-/verif/bin/mgcheck} all quick -repo "$tmp" -quiet 2>&1); rm -rf "$tmp"
   bad=$(echo "$out" | grep -E '^PROP \S+ [1-9]' | awk '{print $2}' | paste -sd,)
   if [ -n "$bad" ]; then echo "$(basename $d): FALSE ALARM in $bad"; echo "$out" | grep -E 'UNRESOLVED|VIOLATED|panic' | cut -c1-400 | head -5; else echo "$(basename $d): silent"; fi
 }
